@@ -30,8 +30,7 @@ Qed.
 Lemma ts_in_scope : forall n, mem n TS.scope = true -> SendSync TS.graph n.
 Proof.
   intros n Hm. pose proof ts_all_public_types_send_sync as HF. rewrite Forall_forall in HF.
-  apply HF. unfold mem in Hm. apply existsb_exists in Hm. destruct Hm as [x [Hin Heq]].
-  apply Nat.eqb_eq in Heq. subst x. exact Hin.
+  apply HF. apply mem_In. exact Hm.
 Qed.
 
 Lemma ts_named_types_send_sync :
@@ -56,6 +55,23 @@ Proof. vm_compute. reflexivity. Qed.
 Lemma nots_R_eq : reach_iter NoTS.graph (length NoTS.graph) [NoTS.n_DynIden] = nots_R.
 Proof. vm_compute. reflexivity. Qed.
 
+Lemma nots_reach_refuted :
+  forall n, In n NoTS.scope -> reaches NoTS.graph n NoTS.n_DynIden = true -> ~ SendSync NoTS.graph n.
+Proof.
+  intros n Hin Hr. apply not_both_refuted. rewrite nots_V_eq.
+  rewrite reaches_def, nots_R_eq in Hr.
+  assert (H : forallb (fun m => implb (mem m nots_R) (negb (both nots_V m))) NoTS.scope = true)
+    by (vm_compute; reflexivity).
+  rewrite forallb_forall in H. specialize (H n Hin). rewrite Hr in H. cbn [implb] in H.
+  apply negb_true_iff in H. exact H.
+Qed.
+
+Lemma nots_rejects : forall n r, lookup nots_V n r = false -> ~ AutoImpl NoTS.graph n r.
+Proof. intros n r H. apply checker_rejects. rewrite nots_V_eq. exact H. Qed.
+
+Lemma nots_not_both : forall n, both nots_V n = false -> ~ SendSync NoTS.graph n.
+Proof. intros n H. apply not_both_refuted. rewrite nots_V_eq. exact H. Qed.
+
 Lemma nots_refuted :
   ~ AutoImpl NoTS.graph NoTS.n_DynIden Send /\
   ~ AutoImpl NoTS.graph NoTS.n_DynIden Sync /\
@@ -65,18 +81,10 @@ Lemma nots_refuted :
   ~ SendSync NoTS.graph NoTS.n_TableCreateStatement /\
   ~ SendSync NoTS.graph NoTS.n_SimpleExpr /\ ~ SendSync NoTS.graph NoTS.n_Condition.
 Proof.
-  assert (Hreach : forall n, In n NoTS.scope -> reaches NoTS.graph n NoTS.n_DynIden = true ->
-                             ~ SendSync NoTS.graph n).
-  { intros n Hin Hr. apply not_both_refuted. rewrite nots_V_eq.
-    unfold reaches in Hr. rewrite nots_R_eq in Hr.
-    assert (H : forallb (fun m => implb (mem m nots_R) (negb (both nots_V m))) NoTS.scope = true)
-      by (vm_compute; reflexivity).
-    rewrite forallb_forall in H. specialize (H n Hin). rewrite Hr in H. cbn [implb] in H.
-    apply negb_true_iff in H. exact H. }
-  split; [apply checker_rejects; rewrite nots_V_eq; vm_compute; reflexivity|].
-  split; [apply checker_rejects; rewrite nots_V_eq; vm_compute; reflexivity|].
-  split; [exact Hreach|].
-  repeat split; apply not_both_refuted; rewrite nots_V_eq; vm_compute; reflexivity.
+  split; [apply nots_rejects; vm_compute; reflexivity|].
+  split; [apply nots_rejects; vm_compute; reflexivity|].
+  split; [exact nots_reach_refuted|].
+  repeat split; apply nots_not_both; vm_compute; reflexivity.
 Qed.
 
 (* the refutation is not vacuous: the statement types do reach DynIden, and a type that does not
@@ -85,10 +93,8 @@ Example nots_select_reaches_dyniden :
   In NoTS.n_SelectStatement NoTS.scope /\ reaches NoTS.graph NoTS.n_SelectStatement NoTS.n_DynIden = true.
 Proof.
   split.
-  - assert (H : mem NoTS.n_SelectStatement NoTS.scope = true) by (vm_compute; reflexivity).
-    unfold mem in H. apply existsb_exists in H. destruct H as [x [Hin Heq]].
-    apply Nat.eqb_eq in Heq. subst x. exact Hin.
-  - unfold reaches. rewrite nots_R_eq. vm_compute. reflexivity.
+  - apply mem_In. vm_compute. reflexivity.
+  - rewrite reaches_def, nots_R_eq. vm_compute. reflexivity.
 Qed.
 
 Example nots_value_still_send_sync : SendSync NoTS.graph NoTS.n_Value.
